@@ -111,9 +111,12 @@ CHECKS['C06'] = dict(level=MC, ref='4 C06',
     text='Registers hold alpha(to_tensor()) of real MPS/MPO objects whose site tensors are small integers, so every object has an exact Gaussian-integer dense representative. TLC (TraceTensor m_* events) '
          'recomputes every result of the MPS algebra from the OBSERVED operands with the tensor reference semantics: sums with amplitudes (LinComb fold), scalar multiplication and division incl. the '
          'separate norm factor (|c| bookkeeping), MPO@MPS (Dot over bra legs), MPO@MPO, conj, transpose, conjugate-transpose, reverse_sites; measure_overlap / measure_mpo (single MPO, sums of MPOs with '
-         'amplitudes, charged MPOs and their conj/H between the states they connect) are exact numbers.',
+         'amplitudes, charged MPOs and their conj/H between the states they connect) are exact numbers. zipper, compression_ (1site / 2site, also every intermediate yield of the iterator, normalize=False) and '
+         'mps_from_tensor contain SVD/QR: their dense result is rounded and must be EXACTLY the integer product / the source tensor. Periodic MPOs: the ring of site tensors is contracted with tensor events '
+         '(tensordot / transpose / trace, each validated by TLC) and MpoPBC.to_tensor(), also with a non-unit factor, must be a copy of that register; measure_mpo(bra, MpoPBC, ket) must equal the vdot computed from it.',
     note='bounded: chain lengths 1..4 (dense representative <= 300 elements), bond dimension 1..3, 12 families (spin-1/2, spin-1, spinless, spinful fermions x symmetries), 240/4000 expression programs of '
-         '10/14 steps. mps_from_tensor, zipper and compression_ (SVD-based) and MpoPBC are not covered; the zero state (empty site tensors) is not used as an operand',
+         '10/14 steps, 120/2000 periodic-MPO programs (N=1..3). Results of zipper / compression_ / mps_from_tensor are compared after rounding (integers within 1e-7 relative); compression_ is started from the zipper '
+         'result (a random start need not converge in a few sweeps); sums of MPOs with a periodic MPO and MpoPBC @ Mpo (unsupported by the library) not covered; the zero state (empty site tensors) is not used as an operand',
     technique='TLA+ tensor reference semantics applied to dense representatives + TLC trace validation of recorded MPS expression programs')
 CHECKS['C07'] = dict(level=MC, ref='4 C07',
     text='Reference = Fock.tla (graded Jordan-Wigner model; CAR model-checked in FockMC). TraceMpoGen.tla decides (i) generate_mpo: the MPO matrix (local basis translated to occupations via the '
@@ -138,7 +141,7 @@ CHECKS['C09'] = dict(level=MC, ref='4 C09',
          'fresh reads for N<=4 x precompute (and the TDVP time budget). Binding without source change: class-level wrappers record every update_env_/clear_site_/Heff/measure call of every '
          'environment instance of real dmrg_ runs, site writes are inferred from content digests; TraceEnv.tla requires (a) no stale/missing read in any instance, (b) the cache events of the '
          'energy environment to be EXACTLY the schedule of Sweeps.tla for the methods used, (c) per-sweep relations on scaled energies (E_reported = <H> in the returned state, E >= E0 of the '
-         'sector, no increase when nothing binds) and measured verdicts (normalised, canonical, same sector, converged untruncated run => eigenstate, penalty runs orthogonal and at the next level).',
+         'sector, no increase when nothing binds) and measured verdicts (normalised, canonical, same sector, converged untruncated run => eigenstate, penalty runs orthogonal and at the next level). Project lists mixing (penalty, state) tuples and bare states in either order must give a state orthogonal to every listed one at the next level. (d) the STOPPING RULE, modelled in TraceEnv (dmrg_stop): in iterator mode with energy_tol and / or Schmidt_tol the run goes on only while a given criterion is unmet and stops early only when ALL given criteria are met.',
     note='energies / norms / residuals / reference eigenvalues (numpy eigvalsh of the sector block of the dense H) are floating-point observations (2e-5 on energies); TLC decides the protocol and '
          'the relations. bounded: N=2..6, 5 families, single MPO and sums, D0 1..16, D_total 2/4/64, ncv 2/3/6, 1..4 sweeps with method switches; 48/700 runs + 24/350 convergence/penalty runs '
          '(real and complex couplings)',
